@@ -84,10 +84,11 @@ def target_name(style, dn):
     return {"same": dn, "explicit": "other", "prefixstar": "p_" + dn, "star": "cp_" + dn}[style]
 
 
-def mk_classes(style, proto, topstyle=None, subclassing="none", flavour=0):
+def mk_classes(style, proto, topstyle=None, subclassing="none", flavour=0, listenable=True):
     """T <- D (deferring attribute `dn`, prefix style `style`, class prefix 'cp_') [<- DD (attribute x, prefix style `topstyle`,
     class prefix 'zz_')].  T carries every name any (mis)resolution could produce, each with a distinct default."""
-    kind = PrototypedFrom if proto else DelegatesTo
+    kind0 = PrototypedFrom if proto else DelegatesTo
+    kind = kind0 if listenable else (lambda *a, **kw: kind0(*a, listenable=False, **kw))
     dn = TOP_NAME[topstyle] if topstyle else "x"
     tn = target_name(style, dn)
     names = []
@@ -120,7 +121,7 @@ def mk_classes(style, proto, topstyle=None, subclassing="none", flavour=0):
     return T, D, DD, tn
 
 
-def history_harness(style, proto, k, chain, subclassing="none"):
+def history_harness(style, proto, k, chain, subclassing="none", listenable=True):
     """chain: None (depth 1) or the prefix style of the upper level of a depth-2 chain"""
     def harness(ex):
         errors = []
@@ -131,8 +132,8 @@ def history_harness(style, proto, k, chain, subclassing="none"):
             pop_exception_handler()
 
     def body(ex, errors):
-        flavour = ex.choice("flavour", 3)
-        T, D, DD, tn = mk_classes(style, proto, chain, subclassing, flavour)
+        flavour = ex.choice("flavour", 3) if listenable else 0
+        T, D, DD, tn = mk_classes(style, proto, chain, subclassing, flavour, listenable)
         decoy = "other" if tn != "other" else "x"          # another attribute of the delegate: never the target
         t1, t2 = T(), T()
         setattr(t2, tn, 50)
@@ -160,7 +161,9 @@ def history_harness(style, proto, k, chain, subclassing="none"):
                 setattr(cur, tn, same)
                 cur.on_trait_change(h_, tn, remove=True)
                 trace.append("target=same")
-                if not local:
+                if not listenable:
+                    ex.check(calls == [] and obs_calls == [], "a deferring attribute declared not listenable does not mirror the target's changes")
+                elif not local:
                     ex.check(len(calls) == len(tcalls), "while linked, the deferring attribute's handlers hear exactly the change "
                                                         "notifications the target's own handlers hear (also of an identical value)")
                 else:
@@ -177,7 +180,9 @@ def history_harness(style, proto, k, chain, subclassing="none"):
             elif op == 1:                                 # assign on the current delegate
                 setattr(cur, tn, val)
                 trace.append("target=%d" % val)
-                if not local:
+                if not listenable:
+                    ex.check(calls == [] and obs_calls == [], "a deferring attribute declared not listenable does not mirror the target's changes")
+                elif not local:
                     ex.check(calls == [val], "while linked, a change of the target notifies on_trait_change handlers of the deferring attribute with the new value")
                     ex.check(obs_calls == [val], "while linked, a change of the target notifies observe handlers of the deferring attribute with the new value")
                 else:
@@ -188,7 +193,12 @@ def history_harness(style, proto, k, chain, subclassing="none"):
                 trace.append("swap")
             elif op == 3:                                 # delete the local value
                 if proto and local:
-                    del top.x
+                    exc_ = None
+                    try:
+                        del top.x
+                    except Exception as e:
+                        exc_ = type(e).__name__
+                    ex.check(exc_ is None, "deleting the local value of a PrototypedFrom attribute raises nothing")
                     local = False
                     trace.append("del")
                 else:
@@ -400,6 +410,14 @@ def obligations(tier, build):
                                       history_harness(style, proto, K, chain, sub),
                                       bounds={"history length": K, "prefix style": style, "chain depth": 2 if chain else 1,
                                               "prefix style of the upper level": chain, "declaring classes": sub},
+                                      leverage="choice feasibility only (compiled code runs concretely)", max_paths=100000))
+    for style in ("same", "explicit"):
+        for proto in (False, True):
+            for chain in (None, "same"):
+                obs.append(Obligation("unlistenable/%s/%s%s/k=%d" % (style, "PrototypedFrom" if proto else "DelegatesTo", "/chain" if chain else "", K),
+                                      history_harness(style, proto, K, chain, "none", listenable=False),
+                                      bounds={"history length": K, "prefix style": style, "chain depth": 2 if chain else 1,
+                                              "deferral": "declared with listenable=False"},
                                       leverage="choice feasibility only (compiled code runs concretely)", max_paths=100000))
     KC = 2 if tier == "quick" else 3
     for ckind in ("list", "dict", "set"):
